@@ -7,7 +7,7 @@ from . import common, l1, loopgen
 PROP = "C18"
 LEANCHECK_MODULES = ["Ivy.L1.Ledger", "Ivy.Props.C18", "Ivy.L0.Tls", "Ivy.Props.C18tls"]
 FAMILIES = ["cycles", "storm", "mix"]
-SANS = ["heap-use-after-free", "heap-buffer-overflow", "stack-buffer-overflow", "global-buffer-overflow", "SEGV", "double-free",
+SANS = ["heap-use-after-free", "heap-buffer-overflow", "stack-buffer-overflow", "global-buffer-overflow", "SEGV", "null-call", "double-free",
         "attempting free", "runtime error", "LeakSanitizer", "abort"]
 RULE = ("families 'cycles' (3-5 init-use-deinit cycles per run: descriptor count and live heap bytes logged before and after every iv_deinit, "
         "LeakSanitizer check after each), 'storm' and 'mix', on all four methods; plus thread-churn runs under the T-sched harness with 1..6 "
